@@ -279,7 +279,20 @@ func flScanSnapshot(c *Ctx, a *flAgg) {
 						reof = true
 					}
 				}
+				prov := es == rerr
+				for _, sc := range scans {
+					if es == extractOf(sc.Val, 1) {
+						prov = true
+					}
+				}
+				for _, w := range writes {
+					if es == extractOf(w.Val, 1) {
+						prov = true
+					}
+				}
 				switch {
+				case !prov:
+					a.bad("FL-err-prec", "ScanSnapshot/err-provenance", "the returned error ("+es+") is neither the reader's, nor scan's, nor the writer's: the outcome would depend on something else than the stream content (e.g. on how the reader reports EOF)", pos)
 				case es == rerr:
 					a.ok("FL-err-prec", "ScanSnapshot/err=reader", "the reader's error is kept", pos)
 				case (rnilOK && rnil) || reof:
@@ -361,6 +374,26 @@ func flScanSnapshot(c *Ctx, a *flAgg) {
 				}
 			}
 		}
+	}
+	// the reader is used only through readLine and buffered
+	opaque := true
+	for _, b := range fn.Blocks {
+		for _, in := range b.Instrs {
+			fa, ok := in.(*ssa.FieldAddr)
+			if !ok || !strings.HasSuffix(fa.X.Type().String(), "stack.reader") {
+				continue
+			}
+			for _, r := range *fa.Referrers() {
+				if st, isStore := r.(*ssa.Store); isStore && st.Addr == ssa.Value(fa) && addrLast(fa) == "rd" {
+					continue // reader{rd: in}
+				}
+				opaque = false
+				a.bad("FL-reader-fresh", "ScanSnapshot/reader-opaque", "ScanSnapshot reads or writes the reader's internal field "+addrLast(fa)+": results would depend on the reader's buffering state (how the input was delivered)", r.Pos())
+			}
+		}
+	}
+	if opaque {
+		a.ok("FL-reader-fresh", "ScanSnapshot/reader-opaque", "ScanSnapshot uses the reader only through readLine and buffered", fn.Pos())
 	}
 	facts.postCapture = captureOK && capturePaths > 0
 	facts.postPos = c.L.Pos(fn.Pos())
@@ -449,6 +482,18 @@ func flProcess(c *Ctx, a *flAgg) {
 		}
 		if p.Term != "return" {
 			continue
+		}
+		// the loop may only be left with an error (EOF included): a nil error means more input may follow
+		stops := haveErr && !errNil
+		for _, lt := range p.Lits {
+			if strings.HasPrefix(lt.Atom.String(), "(processInner(") && strings.HasSuffix(lt.Atom.String(), " == nil)") && !lt.Pol {
+				stops = true
+			}
+		}
+		if stops {
+			a.ok("FL-suffix-once", "process/stop-on-error-only", "the loop is left only when ScanSnapshot (or the rendering) reported an error or EOF", pos)
+		} else {
+			a.bad("FL-suffix-once", "process/stop-on-error-only", "the loop is left although ScanSnapshot returned no error ("+litsString(p)+"): the rest of the input is neither read nor copied", pos)
 		}
 		emptyS, haveLen := p.lit("(len(" + suffix + ") == 0)")
 		switch {
@@ -672,6 +717,74 @@ func flReader(c *Ctx, a *flAgg) {
 					}
 				}
 			}
+		}
+	}
+	if fill != nil {
+		// the retry bound for empty reads: at least bufio's 100 attempts
+		att := int64(-1)
+		for _, l := range naturalLoops(fill) {
+			for _, in := range l.Header.Instrs {
+				phi, ok := in.(*ssa.Phi)
+				if !ok {
+					break
+				}
+				var initV, stepV ssa.Value
+				for i, e := range phi.Edges {
+					if l.Body[phi.Block().Preds[i]] {
+						stepV = e
+					} else {
+						initV = e
+					}
+				}
+				i0, ok1 := bnConst(initV)
+				bo, ok2 := stepV.(*ssa.BinOp)
+				ifi, ok3 := l.Header.Instrs[len(l.Header.Instrs)-1].(*ssa.If)
+				if !ok1 || !ok2 || !ok3 || bo.X != ssa.Value(phi) {
+					continue
+				}
+				st, ok4 := bnConst(bo.Y)
+				cond, ok5 := ifi.Cond.(*ssa.BinOp)
+				if !ok4 || !ok5 || cond.X != ssa.Value(phi) {
+					continue
+				}
+				bound, ok6 := bnConst(cond.Y)
+				if !ok6 || st == 0 {
+					continue
+				}
+				if bo.Op == token.SUB {
+					st = -st
+				}
+				// count iterations
+				n := int64(0)
+				for v := i0; n < 100000; v += st {
+					holds := false
+					switch cond.Op {
+					case token.GTR:
+						holds = v > bound
+					case token.GEQ:
+						holds = v >= bound
+					case token.LSS:
+						holds = v < bound
+					case token.LEQ:
+						holds = v <= bound
+					case token.NEQ:
+						holds = v != bound
+					}
+					if !holds {
+						break
+					}
+					n++
+				}
+				att = n
+			}
+		}
+		switch {
+		case att < 0:
+			a.und("FL-fill-retry", "fill/attempts", "the retry loop of fill is not a constant counted loop", fill.Pos())
+		case att >= 100:
+			a.ok("FL-fill-retry", "fill/attempts", fmt.Sprintf("a reader may return (0, nil) %d times in a row before io.ErrNoProgress (bufio's contract: 100)", att-1), fill.Pos())
+		default:
+			a.bad("FL-fill-retry", "fill/attempts", fmt.Sprintf("fill gives up after %d Read attempts; the documented tolerance for empty reads (bufio: 100 attempts) is not met, so a delivery with %d consecutive zero-length reads fails", att, att), fill.Pos())
 		}
 	}
 	rs := c.MustFunc(a.obls, "FL-fill-guard", "stack", "reader", "readSlice")
